@@ -4,6 +4,7 @@ import SeqVerif.Model.BulkTime
 import SeqVerif.Model.BulkMeta
 import SeqVerif.Model.BulkMetaCodec
 import SeqVerif.Model.BulkIndex
+import SeqVerif.Model.BulkResponse
 import SeqVerif.Extracted.C10
 /-!
 Driver for C10.  Requests (hex = byte string, `-` = empty):
@@ -20,6 +21,7 @@ Driver for C10.  Requests (hex = byte string, `-` = empty):
      mapping = `,`-separated `<path hex>=<x|o|g|n|l>:<title hex>/<k|t|p|e|o>/<maxSize>+...`;
      tree = `|`-separated preorder: node = `<AsBytes hex>~<trunes of encodeInsaneNode>~<o|a|x>~<#fields>~<#items>` followed by
      (`<name hex>`, node) per field and a node per item; trunes as in the C11 driver
+  `bulk.resp <took ms> <total>`                             -> `ok <body hex>`   (SV.Bulk.bulkResponse = writeBulkResponse)
   `bulk.metas <metas payload hex>`                          -> `ok <mid:rid:size:khex=vhex+...,...> reenc=<0|1>` | `err malformed`
   `bulk.delayed <docDelay> <drift> <futureDrift>`           -> `ok <0|1>`     (extracted translation of documentDelayed)
   `bulk.mid <doc ns | none> <req ns> <drift> <futureDrift>` -> `ok <MID>`
@@ -219,6 +221,10 @@ def step (line : String) : String :=
       let fmtTok (t : Bytes × Bytes) := s!"{fmtHex t.1}={fmtHex t.2}"
       "ok " ++ fmtList (fun (m : Meta) => s!"{m.mid}/{m.size}/{fmtList fmtTok m.tokens "+"}") ms ";"
     | _, _, _, _, _, _, _, _, _, _, _ => "bad-op"
+  | ["bulk.resp", took, total] =>
+    match took.toNat?, total.toNat? with
+    | some t, some n => s!"ok {fmtHex (bulkResponse t n)}"
+    | _, _ => "bad-op"
   | ["bulk.metas", payload] =>
     match hex? payload with
     | some p =>
